@@ -215,6 +215,40 @@ def pulsed_system(d, start, dt):
     return oqupy.TimeDependentSystem(ham)
 
 
+def homogeneity(res):
+    """both code paths are linear in the initial state: a run with c*rho0 is c times the run with
+    rho0 (always run; the truncation must be relative)"""
+    import oqupy
+    from oqupy import operators as op
+    corr = oqupy.PowerLawSD(alpha=0.3, zeta=1.0, cutoff=3.0, cutoff_type="exponential", temperature=0.3)
+    bath = oqupy.Bath(0.5 * op.sigma("z"), corr)
+    sysm = oqupy.System(0.5 * op.sigma("x"))
+    par = oqupy.TempoParameters(dt=0.1, epsrel=1e-8, dkmax=None)
+    rho = op.spin_dm("z+")
+
+    def tempo(c):
+        return np.array(oqupy.Tempo(sysm, bath, par, c * rho, start_time=0.0).compute(
+            0.83, progress_type="silent").states)
+    pt = oqupy.pt_tempo_compute(bath=bath, start_time=0.0, end_time=0.83, parameters=par,
+                                progress_type="silent")
+
+    def ptrun(c):
+        return np.array(oqupy.compute_dynamics(sysm, initial_state=c * rho, process_tensor=pt,
+                                               start_time=0.0, progress_type="silent").states)
+    for api, f in (("Tempo", tempo), ("PT-TEMPO+compute_dynamics", ptrun)):
+        base = f(1.0)
+        for c in (1e-4, 1e-7):
+            try:
+                err = float(np.abs(f(c) / c - base).max())
+            except Exception as e:                          # noqa: BLE001 - the code failing IS the finding
+                err = float("inf")
+            res.case("homogeneity:%s:c=%g" % (api, c), True, {"api": api, "c": c, "difference": err})
+            if err > 2e-6:
+                res.fail("homogeneity:%s with the initial state scaled by %g" % (api, c),
+                         {"api": api, "scale": c, "epsrel": 1e-8,
+                          "difference_of_run(c*rho0)/c_to_run(rho0)": err})
+
+
 def file_couplings():
     from oqupy import operators as op
     mix = 0.5 * op.sigma("x") + 0.3 * op.sigma("y") + 0.4 * op.sigma("z")
@@ -300,6 +334,7 @@ def run(tier, seed, replay):
     fw.standard_pipeline(res, ["UniqueSums"], THEOREMS)
     try:
         correspondence(res, tier, rng)
+        homogeneity(res)
     except fw.Infra as e:
         res.oblige("correspondence run", False, str(e))
     return fw.finish(res, lambda r: (search_file(r), search_long(r), search(r)))
